@@ -178,6 +178,12 @@ CORPUS = [
     # new engine over the database re-issues epoch N and a dependent stored in the cancelled build is never re-run (stale for ever)
     ("iteration-persisted", ["db 1", "rule 0 sig=0 obs=1", "rule 4 sig=0 obs=0 req=0", "rule 5 sig=0 obs=0 req=4", "rule 7 sig=0 obs=0 req=5", "set 0 1", "build 7", "set 0 2"],
      ["restart", "set 0 3", "build 7", "build 5"], "7"),
+    # cancellation while previously built rules are only being VALIDATED (inside isResultValid of the leaf): every rule the scan touched must be
+    # scanned again by the next build on the same engine (a rule left in a "scanned" state would be served stale)
+    ("scan-cancel-chain", ["db 0", "rule 0 sig=0 obs=1", "rule 4 sig=0 obs=0 req=0", "rule 5 sig=0 obs=0 req=4", "rule 7 sig=0 obs=0 req=5", "set 0 1", "build 7"],
+     ["set 0 2", "build 7", "set 0 3", "build 5"], "7"),
+    ("scan-cancel-chain-db", ["db 1", "rule 0 sig=0 obs=1", "rule 1 sig=0 obs=1", "rule 4 sig=0 obs=0 req=0 follow=1", "rule 5 sig=0 obs=0 req=4", "rule 7 sig=0 obs=0 req=5,1", "set 0 1", "set 1 1", "build 7"],
+     ["set 0 2", "set 1 2", "build 7"], "7"),
     # discovered-dependency window (known finding): R=3 requests A=0, discovers D=1; both change; cancel right after R completed;
     # D returns to its earlier stamp
     ("disc-window", ["db 1", "rule 0 sig=0 obs=1", "rule 1 sig=0 obs=1", "rule 4 sig=1 obs=0 req=0 disc=1", "set 0 1", "set 1 1", "build 4", "set 0 2", "set 1 2"],
